@@ -587,6 +587,9 @@ def _opt_from_residual(eng, m, args, fr, dty):
 # ---------------------------------------------------------------- misc std
 @model(r'^<str as ToString>::to_string$|^<(std::string::)?String as From<&str>>::from$|^<str as ToOwned>::to_owned$|^<(std::string::)?String as Clone>::clone$|^core::str::<impl str>::to_owned$')
 def _str_to_string(eng, m, args, fr, dty):
+    v = eng.deref(args[0], fr)
+    if isinstance(v, Opaque):
+        return Opaque(v.what)          # an opaque (formatted) message stays opaque
     return Vec(list(items_of(eng, args[0], fr)))
 
 
